@@ -21,6 +21,9 @@ import pn  # noqa: F401
 
 
 def title(t):
+    # ("%00" in the model's title: the rest of the 16-byte field is filled with NUL bytes)
+    if t["core"].endswith("%00"):
+        return (" " * t["lead"] + t["core"][:-3]).ljust(16, "\x00")
     return " " * t["lead"] + t["core"] + " " * t["trail"]
 
 
@@ -31,8 +34,14 @@ def observe(lab, c):
     lab.server.ae_title = title(c["own"])
     lab.apply_idhist(None if c["identity"] in ("none", "unbound") else c["identity"], c["idhist"])
     ident = None if c["identity"] == "none" else {"type": 1, "primary": b"user"}
-    rq = lab.rq_pdu([{"id": 1, "ab": "A", "ts": ["T1"]}], calling=title(c["calling"]), called=title(c["called"]), identity=ident)
-    out = lab.raw_associate(rq.encode(), then_echo=True)
+    cg, cd = title(c["calling"]), title(c["called"])
+    rq = lab.rq_pdu([{"id": 1, "ab": "A", "ts": ["T1"]}], calling=cg.replace("\x00", " "), called=cd.replace("\x00", " "), identity=ident)
+    raw = bytearray(rq.encode())
+    if "\x00" in cd:                  # the exact bytes of the 16-byte title fields (called: 10..25, calling: 26..41)
+        raw[10:26] = cd.encode("ascii")[:16].ljust(16, b"\x00")
+    if "\x00" in cg:
+        raw[26:42] = cg.encode("ascii")[:16].ljust(16, b"\x00")
+    out = lab.raw_associate(bytes(raw), then_echo=True)
     a = lab.acceptor_view(0.5)
     t0 = time.time()
     while out["kind"] == "AC" and not lab.handler_calls and time.time() - t0 < 0.5:
